@@ -106,7 +106,56 @@ def rule_rewrite_order(ctx: Ctx) -> None:
         ctx.ok("order.wrapper", m, ins[0], what="grouped wrapper inserted right after the preceding non-one-qubit node")
 
 
+def rule_remove_identity_scope(ctx: Ctx) -> None:
+    """identity.scope: remove_identity deletes the nodes indexed under the label "Identity".  If it also deletes other nodes (wrappers that
+    "act as the identity"), the test that decides so must be equality of the wrapper's matrix with the identity up to a *global* phase
+    (dmf.check_equivalent_unitaries); a comparison of magnitudes (`np.abs(matrix)` against the identity) accepts every diagonal unitary,
+    so Z, S and S-dagger wrappers are deleted and the compiled state changes."""
+    repo = ctx.repo
+    m = repo.module(DAG)
+    fn = repo.anchor(DAG, "CircuitDAG.remove_identity")
+    ctx.touch(m, fn)
+    ci = repo.cls("CircuitDAG", DAG)
+    labels = {c_.value for x in ast.walk(fn) if isinstance(x, ast.Subscript) and norm(x.value) == "self.node_dict" for c_ in [x.slice] if isinstance(c_, ast.Constant)}
+    labels |= {c.args[0].value for c in calls_in(fn) if call_name(c) == "self.node_dict.get" and c.args and isinstance(c.args[0], ast.Constant)}
+    extra = sorted(l for l in labels if l != "Identity")
+    if not extra:
+        ctx.ok("identity.scope", m, fn, what='remove_identity only removes nodes labelled "Identity"')
+        return
+    # find the predicate(s) guarding the removal of the other nodes
+    preds = []
+    for i in [x for x in ast.walk(fn) if isinstance(x, ast.If) and any(call_name(c) == "self.remove_op" for b in x.body for c in calls_in(b))]:
+        for c in [x for x in ast.walk(i.test) if isinstance(x, ast.Call)]:
+            f = c.func
+            if isinstance(f, ast.Attribute) and norm(f.value) in ("self", "CircuitDAG") and f.attr in ci.methods():
+                preds.append(ci.methods()[f.attr])
+    if not preds:
+        raise AnalysisError(f"remove_identity also walks {extra} but the predicate deciding the removal was not found")
+    for pf in preds:
+        magnitudes = [x for x in ast.walk(pf) if isinstance(x, ast.Call) and call_name(x) in ("np.abs", "np.absolute", "abs") and
+                      any(isinstance(p_, ast.Call) and call_name(p_) in ("np.allclose", "np.array_equal", "np.isclose") for p_ in _anc13(x))]
+        exact = [x for x in ast.walk(pf) if isinstance(x, ast.Call) and call_attr(x) == "check_equivalent_unitaries"]
+        if magnitudes:
+            ctx.fail("identity.scope", m, magnitudes[0],
+                     f"remove_identity deletes {extra} nodes for which {pf.name} holds, and {pf.name} compares only the magnitudes of the wrapper's "
+                     f"matrix entries with the identity (`{short(magnitudes[0])}`): every diagonal unitary passes, so wrappers equal to Z, S or "
+                     f"S-dagger are removed and the compiled state changes", func=f"CircuitDAG.{pf.name}",
+                     construct=f"remove_identity: {pf.name} accepts any diagonal unitary")
+        elif exact:
+            ctx.ok("identity.scope", m, exact[0], what=f"{pf.name}: identity up to a global phase")
+        else:
+            raise AnalysisError(f"remove_identity: predicate {pf.name} for removing {extra} nodes not classified")
+
+
+def _anc13(n):
+    p = parent(n)
+    while p is not None:
+        yield p
+        p = parent(p)
+
+
 def run(ctx: Ctx) -> None:
+    rule_remove_identity_scope(ctx)
     from ..rules import order as _order
     _order.rule_sequence_source(ctx, [("graphiq/circuit/circuit_dag.py", "CircuitDAG.to_json"), ("graphiq/circuit/circuit_dag.py", "CircuitDAG._slim_seq"), ("graphiq/circuit/circuit_base.py", "CircuitBase.to_openqasm")])
     from ..rules import memo as _memo
@@ -124,7 +173,21 @@ def run(ctx: Ctx) -> None:
     ctx.floor("order.wrapper", 8)
 
 
+def _identity_wrappers(src: str) -> str:
+    a = "    def _max_depth(self, root_node):\n"
+    if src.count(a) != 1:
+        raise LookupError("knock-out anchor text missing")
+    extra = ("        for node in list(self.node_dict.get(\"OneQubitGateWrapper\", [])):\n"
+             "            if self._looks_identity(self.dag.nodes[node][\"op\"]):\n"
+             "                self.remove_op(node)\n\n"
+             "    @staticmethod\n"
+             "    def _looks_identity(wrapper):\n"
+             "        return np.allclose(np.abs(ops.local_clifford_to_matrix_map(wrapper.operations)), np.eye(2))\n\n")
+    return src.replace(a, extra + a)
+
+
 KNOCKOUTS = [
+    Knockout("identity-wrapper-magnitudes", DAG, _identity_wrappers, "identity.scope", "any diagonal unitary"),
     Knockout("noise-masked-in-place", CBASE, sub_nth("                            tmp_noise = [op.noise[0], nm.NoNoise]\n                            op.noise = tmp_noise\n", "                            op.noise[1] = nm.NoNoise\n", 0), "effect.stale-swap-read", "in-place store"),
     Knockout("group-merge-reversed", DAG, sub_once("                        gate_list += op.operations\n", "                        gate_list += list(reversed(op.operations))\n"), "order.wrapper", "reversed when merged"),
     Knockout("export-node-order", "graphiq/circuit/circuit_dag.py", sub_once("        for op in self.sequence():\n            if isinstance(op, ops.InputOutputOperationBase):", "        for op in [self.dag.nodes[k]['op'] for k in self.dag.nodes]:\n            if isinstance(op, ops.InputOutputOperationBase):"), "order.topological", "node-creation order"),
